@@ -847,7 +847,22 @@ var hostsLine = rapid.Custom(func(t *rapid.T) string {
 	}
 	sb.WriteString(hostsAddr.Draw(t, "addr"))
 	n := rapid.IntRange(0, 5).Draw(t, "names")
+	if rapid.IntRange(0, 24).Draw(t, "many") == 0 {
+		// Many names: counts around powers of two and beyond any plausible
+		// fixed-size scratch array.
+		n = rapid.SampledFrom([]int{7, 8, 9, 15, 16, 17, 31, 32, 33, 34, 63, 64, 65, 100, 129, 257}).Draw(t, "manynames")
+	}
 	for i := 0; i < n; i++ {
+		if n > 5 {
+			// (cheap draws for the long lines; one name in 20 is arbitrary)
+			sb.WriteString(rapid.SampledFrom([]string{" ", "\t", "  "}).Draw(t, "ws"))
+			if rapid.IntRange(0, 19).Draw(t, "any") == 0 {
+				sb.WriteString(hostsName.Draw(t, "name"))
+			} else {
+				sb.WriteString("h" + itoa(i) + rapid.SampledFrom([]string{"", ".lan", ".Example.ORG"}).Draw(t, "sfx"))
+			}
+			continue
+		}
 		if rapid.IntRange(0, 30).Draw(t, "nosep") == 0 {
 			sb.WriteString(rapid.SampledFrom([]string{"\v", " ", "\f", ""}).Draw(t, "fakesep"))
 		} else {
